@@ -2,6 +2,7 @@ package main
 
 import (
 	"fmt"
+	"strings"
 	"go/token"
 	"go/types"
 	"hash/crc64"
@@ -23,11 +24,75 @@ func (in *Interp) ghostAccess(c *Cell, f *Frame) {
 }
 
 func (in *Interp) isPoolInternal(fn *ssa.Function) bool {
-	return false
+	p := fn.Pkg
+	if p == nil && fn.Origin() != nil {
+		p = fn.Origin().Pkg
+	}
+	if p == nil {
+		return false
+	}
+	return p.Pkg.Path() == modulePath+"/message/pool"
+}
+
+// ghostCall implements the ownership ghost state of pooled messages (C12) at method granularity: a message is
+// marked released when (*Pool).ReleaseMessage returns and unmarked when (*Pool).AcquireMessage hands it out;
+// calling any method of a released message from outside package pool, or releasing it again, is a violation.
+func (in *Interp) ghostCall(th *Thread, fn *ssa.Function, args []Value) {
+	if !in.ghostOn || !in.isPoolInternal(fn) || fn.Signature.Recv() == nil || len(args) == 0 {
+		return
+	}
+	rt := fn.Signature.Recv().Type().String()
+	callerInPool := false // inside (*Pool).ReleaseMessage (which resets the message it is releasing)
+	for _, fr := range th.frames {
+		if fr.fn.Name() == "ReleaseMessage" && in.isPoolInternal(fr.fn) {
+			callerInPool = true
+		}
+	}
+	switch {
+	case strings.HasSuffix(rt, "pool.Pool") && fn.Name() == "ReleaseMessage" && len(args) > 1:
+		if p, ok := args[1].(Ptr); ok && p.c != nil && p.c.obj != nil && p.c.obj.released {
+			in.ghostViolation("ghost: pooled message released twice without being re-acquired")
+		}
+	case strings.HasSuffix(rt, "pool.Message") && !callerInPool:
+		if p, ok := args[0].(Ptr); ok && p.c != nil && p.c.obj != nil && p.c.obj.released {
+			in.ghostViolation("ghost: pooled message used after release")
+		}
+	}
+}
+
+// ghostReturn is called when a pool function returns.
+func (in *Interp) ghostReturn(fn *ssa.Function, f *Frame) {
+	if in.cfg.Debug && in.isPoolInternal(fn) {
+		fmt.Printf("  [ghost] return %s ghostOn=%v\n", fn.String(), in.ghostOn)
+	}
+	if !in.ghostOn || !in.isPoolInternal(fn) || fn.Signature.Recv() == nil {
+		return
+	}
+	rt := fn.Signature.Recv().Type().String()
+	if !strings.HasSuffix(rt, "pool.Pool") {
+		return
+	}
+	switch fn.Name() {
+	case "ReleaseMessage":
+		if len(fn.Params) > 1 {
+			if p, ok := f.env[fn.Params[1]].(Ptr); ok && p.c != nil && p.c.obj != nil {
+				p.c.obj.released = true
+			}
+		}
+	case "AcquireMessage":
+		if p, ok := f.result.(Ptr); ok && p.c != nil && p.c.obj != nil {
+			p.c.obj.released = false
+		}
+	}
 }
 
 func (in *Interp) ghostViolation(msg string) {
-	in.asserts = append(in.asserts, AssertRec{Label: "ghost: " + msg, Failed: true, Model: in.completeModel(in.anyModel())})
+	for _, a := range in.asserts {
+		if a.Label == msg {
+			return
+		}
+	}
+	in.asserts = append(in.asserts, AssertRec{Label: msg, Failed: true, Model: in.completeModel(in.anyModel())})
 }
 
 func (in *Interp) anyModel() Model {
